@@ -18,7 +18,7 @@ import (
 
 type c08sParams struct {
 	FT, ST, MR int
-	Start      string // "closed" or "open-expired" (tripped, timeout elapsed)
+	Start      string // "closed", "open-expired" (tripped, timeout elapsed) or "closed-stale-failure"
 	Modes      []string
 }
 
@@ -38,6 +38,16 @@ func c08sScenario(p c08sParams, bound int) vh.SScenario {
 				vh.ToolError("setup: breaker not open after %d failed requests", p.FT)
 			}
 			s.AdvanceQuiet(3100 * time.Millisecond)
+		}
+		if p.Start == "closed-stale-failure" {
+			// CLOSED with one failure on record whose counting interval (2s) has lapsed: the next
+			// arrivals take the counter-reset path
+			st.mode = "500"
+			k.request("10.0.0.1", nil)
+			if k.lb.circuitBreaker.State() != circuitbreaker.StateClosed {
+				vh.ToolError("setup: breaker not closed after one failed request with failure_threshold %d", p.FT)
+			}
+			s.AdvanceQuiet(2100 * time.Millisecond)
 		}
 		results := make([]reqResult, len(p.Modes))
 		done := make([]bool, len(p.Modes))
@@ -119,7 +129,11 @@ func c08sScenarios() []vh.SScenario {
 			}
 		}
 	}
+	for _, m := range [][]string{{"ok", "500"}, {"500", "500"}, {"ok", "ok"}, {"500", "abort"}} {
+		out = append(out, c08sScenario(c08sParams{FT: 2, ST: 1, MR: 1, Start: "closed-stale-failure", Modes: m}, bound))
+	}
 	if vres.Thorough() {
+		out = append(out, c08sScenario(c08sParams{FT: 3, ST: 1, MR: 1, Start: "closed-stale-failure", Modes: []string{"ok", "500", "500"}}, 2))
 		for _, m := range [][]string{{"abort", "500", "ok"}, {"abort", "abort", "abort"}} {
 			out = append(out, c08sScenario(c08sParams{FT: 2, ST: 1, MR: 1, Start: "closed", Modes: m}, 2))
 			out = append(out, c08sScenario(c08sParams{FT: 1, ST: 2, MR: 2, Start: "open-expired", Modes: m}, 2))
